@@ -18,7 +18,7 @@ NJ_ASSUME = ['specs/ninja.py (ninja lexing of values and paths) is written from 
 
 TABLE['C02'] = {
     'validate': ['sh'],
-    'modules': ['contracts.ninja', 'contracts.bounded_cmd', 'contracts.linking'],
+    'modules': ['contracts.ninja', 'contracts.bounded_cmd', 'contracts.linking', 'contracts.argv'],
     'level': 'proof',
     'assumptions': SH_ASSUME + NJ_ASSUME,
     'trusted_base': ['PyVC (pyvc/*.py): symbolic interpreter, fold normaliser, induction schemas', 'z3 5.1.0',
@@ -36,7 +36,7 @@ MK_ASSUME = ['specs/make.py (GNU make reading of recipe lines, := values, target
 
 TABLE['C01'] = {
     'validate': ['sh', 'make'],
-    'modules': ['contracts.make', 'contracts.bounded_cmd', 'contracts.linking'],
+    'modules': ['contracts.make', 'contracts.bounded_cmd', 'contracts.linking', 'contracts.argv'],
     'level': 'proof',
     'assumptions': SH_ASSUME + MK_ASSUME,
     'trusted_base': ['PyVC (pyvc/*.py)', 'z3 5.1.0', 'specs/sh.py', 'specs/make.py'],
